@@ -163,7 +163,8 @@ def state(app):
     trxs = app.trx_list.trx_list
     for t in trxs:
         fh = "N" if t.fh is None else "%s/%s/%d" % (t.fh.hsn, t.fh.maio, len(t.fh.ma))
-        q = "/".join(str(m.fn) for m in t._tx_queue) or "-"
+        # an element that is not a message (no .fn) is shown by its type name: the state stays readable
+        q = "/".join(str(getattr(m, "fn", "<%s>" % type(m).__name__)) for m in t._tx_queue) or "-"
         parts.append(" ".join([
             "R%d" % int(t.running), fmt_opt(t._rx_freq), fmt_opt(t._tx_freq), fh,
             "v%d" % t.data_if._hdr_ver, "m%d" % int(t.rf_muted), "ta%s" % t.ta,
